@@ -4,10 +4,18 @@ integrand / right-hand side; the rule tables (exact dyadic doubles of the source
 traces and Coq proves (a) that the traced terms ARE the rules of those tables for every function, (b) the moment / order
 conditions by vm_compute on Q, hence exactness on polynomials with the Riemann integral as reference.
 Engine H: Gallina models of the time loops (pinned and clamped variants); the variant that corresponds to /repo is
-found by running the real loops on scripted acceptance sequences; the matching theorem file is compiled."""
-import math, os, re
+found by running the real loops on scripted acceptance sequences; the matching theorem file is compiled.
+Engine H: Gallina model of the 4-argument GaussKronrodQuadrature::operator() (NaN / infinite / swapped bounds, bisection)
+over an abstract float-like type, theorems for every instance; its binary64 instance (Coq primitive floats) is compared
+bit for bit with the real overload on integrands given as data (gkop.py).
+Engine S: the changes of variable of the unbounded ranges are traced (trace_cv.cxx) and proved to be the 15-point rule
+applied to the documented transformed integrands, which Coq proves to be the substitution rule (Coquelicot)."""
+import math, os, re, sys, threading
+from concurrent.futures import ThreadPoolExecutor
 from fractions import Fraction as F
 from vlib import guarded_main
+sys.path.insert(0, os.path.dirname(os.path.abspath(__file__)))
+import gkop
 
 SUPPORT = ["src/Exception/ContractViolation.cxx", "src/Math/MathException.cxx", "src/Exception/TFELException.cxx"]
 ORDER = {"rk2": 2, "rk4": 4, "rk42": 4, "rk54": 5}
@@ -53,15 +61,21 @@ def main(c):
             return False
         return raw_report(key, what, replay, found_input)
     c.report = capped_report
-    tgk = c.cxx("trace_gk", ["trace_gk.cxx"], SUPPORT)
-    trk = c.cxx("trace_rk", ["trace_rk.cxx"], SUPPORT, flags=["-DNDEBUG"])
-    drv = c.cxx("driver", ["driver.cxx"], SUPPORT)
+    with ThreadPoolExecutor(max_workers=2) as ex:
+        fb = [ex.submit(c.cxx, "trace_gk", ["trace_gk.cxx"], SUPPORT),
+              ex.submit(c.cxx, "trace_rk", ["trace_rk.cxx"], SUPPORT, flags=["-DNDEBUG"]),
+              # -ffp-contract=off: doubles = IEEE binary64 = Coq primitive floats (mode gkop is compared bit for bit)
+              ex.submit(c.cxx, "driver", ["driver.cxx"], SUPPORT, flags=["-ffp-contract=off"]),
+              # the changes of variable are private members: -fno-access-control
+              ex.submit(c.cxx, "trace_cv", ["trace_cv.cxx"], SUPPORT, flags=["-fno-access-control"])]
+        tgk, trk, drv, tcv = [f.result() for f in fb]
     cdir = os.path.join(c.work, "coq")
     os.makedirs(cdir, exist_ok=True)
-    gen_gk, gen_rk = os.path.join(cdir, "C12_gk_gen.v"), os.path.join(cdir, "C12_rk_gen.v")
-    trace_ok = True
+    gen_gk, gen_rk, gen_cv = os.path.join(cdir, "C12_gk_gen.v"), os.path.join(cdir, "C12_rk_gen.v"), os.path.join(cdir, "C12_cv_gen.v")
+    trace_ok, cv_ok = True, True
     tables = {}
-    for exe, gen, what in ((tgk, gen_gk, "GaussKronrodQuadrature"), (trk, gen_rk, "RungeKutta2/4/42/54")):
+    for exe, gen, what in ((tgk, gen_gk, "GaussKronrodQuadrature"), (trk, gen_rk, "RungeKutta2/4/42/54"),
+                           (tcv, gen_cv, "GaussKronrodQuadrature changes of variable")):
         rc, out, err = c.run([exe, "gen", gen, str(c.seed)])
         for l in out.splitlines():
             if l.startswith("AGREE"):
@@ -72,15 +86,38 @@ def main(c):
                 t = l.split()
                 tables.setdefault(t[1], []).append((float(t[2]), float(t[3])))
         if rc != 0 or "TRACE-FAIL" in out:
-            trace_ok = False
+            if exe == tcv:
+                cv_ok = False
+            else:
+                trace_ok = False
             msg = [l for l in out.splitlines() if l.startswith(("TRACE-FAIL", "TABLES"))]
             c.notes.append("tracer of %s failed: %s %s" % (what, msg, err[-300:]))
     c.trusted("engine S tracer (cxx/sym/sym.hxx: Sym arithmetic with double literals kept exact, path oracle, printer with exact dyadic constants), "
               "props/C12/ratx.hxx (exact rational evaluation used to read tables off the traces; the tables are re-validated by the Coq linking lemmas), "
               "g++ template instantiation with Sym (base_type<Sym> = double for the GK tracer)",
-              "agreement Sym trace vs double instantiation on seeded inputs (GK: 200, RK: 480), relative 1e-13")
+              "props/C12/trace_cv.cxx: wrappers SymQ (base type SymX) / SymX (base type double) of Sym that keep constant x double-literal "
+              "operations symbolic (exact real arithmetic), private members reached with -fno-access-control; the pairing argument <-> node is "
+              "re-proved by Coq (field) for every application of f",
+              "agreement Sym trace vs double instantiation on seeded inputs (GK: 200, RK: 480, changes of variable: 180), relative 1e-13 / 1e-12")
 
     c.log("traced")
+    # ---------------------------------------------------------------- Coq in parallel with the model runs
+    # phase A: files everything else depends on; phase B: 3 workers -- generated files, proof groups, and one worker
+    # for the two model evaluations (loop models on Q, 4-argument operator() on primitive floats)
+    results = []
+    rlock = threading.Lock()
+
+    def coq(files, timeout=900):
+        r = c.coq(files, timeout)
+        with rlock:
+            results.append((files, r))
+        c.log("coq", [(f[0], f[2]) for f in r.files], "ok" if r.ok else "FAILED")
+        return r
+    ex = ThreadPoolExecutor(max_workers=3)
+    fa = [ex.submit(coq, ["C12Model.v"]), ex.submit(coq, ["C12GKModel.v", "C12GKFloat.v"]), ex.submit(coq, ["C12Spec.v"])]
+    f_gk = ex.submit(coq, [gen_gk]) if trace_ok else None
+    f_rk = ex.submit(coq, [gen_rk]) if trace_ok else None
+    f_cv = ex.submit(coq, ["C12CV.v"] + ([gen_cv] if cv_ok else []))
     # ---------------------------------------------------------------- loops: which model corresponds to /repo?
     nloops = c.pick(60, 400)
     rc, out, err = c.run([drv, "loops", str(c.seed), str(nloops)])
@@ -103,93 +140,138 @@ def main(c):
              "Definition showa (r : option (Q * Q * nat)) := match r with Some (a, b, n) => Some (qz a, qz b, n) | None => None end.\n"
              "Definition showf (r : option Q) := match r with Some a => Some (qz a) | None => None end.\n"]
     for (nm, ti, tf, dt0, script, res) in loops:
-        fa, fr = factors[nm]
+        fac, frj = factors[nm]
         orc = [(ch == "1") for ch in script] + [True] * 16
-        ol = "[" + "; ".join("(%s, %s)" % ("true" if a else "false", qlit(fa if a else fr)) for a in orc) + "]"
+        ol = "[" + "; ".join("(%s, %s)" % ("true" if a else "false", qlit(fac if a else frj)) for a in orc) + "]"
         for cl in ("false", "true"):
             cases.append("Eval vm_compute in showa (adapt_iterate_Q %s %s %s %s %s)." % (cl, ol, qlit(ti), qlit(tf), qlit(dt0)))
     for (nm, b, e, h, r) in fixed:
         cases.append("Eval vm_compute in showf (fixed_exe_Q 400 %s %s %s)." % (qlit(h), qlit(b), qlit(e)))
         cases.append("Eval vm_compute in showf (fixedc_exe_Q 400 %s %s %s)." % (qlit(h), qlit(b), qlit(e)))
-    rc, mout, merr = c.coq_eval(["C12Model.v"], "\n".join(cases))
-    if rc != 0:
-        raise RuntimeError("model evaluation failed: " + merr[-2000:])
-    vals = [v.strip() for v in re.split(r"^\s*=\s", mout, flags=re.M)[1:]]
-    vals = [re.sub(r"\s*:\s*option.*$", "", v, flags=re.S).strip() for v in vals]
+    # ---------------------------------------------------------------- 4-argument operator(): cases and real outputs
+    gcases = gkop.gen_cases(c.rng, q)
+    ginp = os.path.join(c.work, "gkop_cases.txt")
+    with open(ginp, "w") as f:
+        f.write("\n".join(cs.line() for cs in gcases) + "\n")
+    rc, gout, err = c.run([drv, "gkop", ginp, "0"], timeout=900)
+    gobs = gkop.parse_driver(gout) if rc == 0 else {}
+    if rc != 0 or len(gobs) != len(gcases):
+        c.report("driver:gkop", "driver gkop failed (rc=%d) or printed %d results for %d cases: %s" % (rc, len(gobs), len(gcases), err[-400:]),
+                 {"stderr": err[-2000:]}, False)
+        gobs = None
+    gtables = (tables.get("K", []), tables.get("G", []))
+    tables_ok = (len(gtables[0]) == 15 and len(gtables[1]) == 7 and
+                 all(gtables[1][j][0] == gtables[0][2 * j + 1][0] for j in range(7)))
+    if not tables_ok:
+        c.notes.append("the tables read off the trace are not a 15-point rule with the 7 Gauss nodes at its odd positions: "
+                       "the binary64 model of the rule does not apply (sizes %d, %d)" % (len(gtables[0]), len(gtables[1])))
 
-    def close(a, b, s):
-        return abs(a - b) <= 1e-12 * max(1.0, abs(s), abs(a), abs(b))
-
-    def ints(v):
-        return [int(x) for x in re.findall(r"-?\d+", v)]
-
-    def parse_adapt(v):
-        if v.startswith("None"):
-            return None
-        n = ints(v)
-        return (float(F(n[0], n[1])), float(F(n[2], n[3])), n[4])
-
-    def parse_fixed(v):
-        if v.startswith("None"):
-            return None
-        n = ints(v)
-        return float(F(n[0], n[1]))
-    k = 0
-    match = {"adapt": {"false": 0, "true": 0}, "fixed": {"false": 0, "true": 0}}
-    mismatch = {"adapt": {"false": [], "true": []}, "fixed": {"false": [], "true": []}}
-    nadapt = 0
-    for (nm, ti, tf, dt0, script, res) in loops:
-        for cl in ("false", "true"):
-            mv = parse_adapt(vals[k]); k += 1
-            ok = (mv is None and res is None) or (mv is not None and res is not None and close(mv[0], res[0], tf) and close(mv[1], res[1], tf) and mv[2] == res[2])
-            if ok:
-                match["adapt"][cl] += 1
-            else:
-                mismatch["adapt"][cl].append((nm, ti, tf, dt0, script, res, mv))
-        nadapt += 1
-        c.count(1, ("loop", nm, ti, tf, dt0, script), len(script) > 0)
-    nfixed = 0
-    for (nm, b, e, h, r) in fixed:
-        for cl in ("false", "true"):
-            mv = parse_fixed(vals[k]); k += 1
-            if mv is not None and close(mv, r, e):
-                match["fixed"][cl] += 1
-            else:
-                mismatch["fixed"][cl].append((nm, b, e, h, r, mv))
-        nfixed += 1
-        c.count(1, ("fixed", nm, b, e, h), True)
+    def model_job():
+        """both model evaluations, one after the other (coq_eval names its file after the directory size)"""
+        r1 = c.coq_eval([], "\n".join(cases))
+        c.log("loop models evaluated")
+        r2 = None
+        if gobs is not None and tables_ok:
+            r2 = c.coq_eval([], gkop.coq_text(gtables, gcases), timeout=1200)
+            c.log("binary64 model of the 4-argument operator() evaluated on %d cases" % len(gcases))
+        return r1, r2
+    mres, gres = None, None
     variant = {}
-    for fam, n in (("adapt", nadapt), ("fixed", nfixed)):
-        # discriminating cases exist in every run (both models differ on them)
-        if match[fam]["false"] == n and match[fam]["true"] < n:
-            variant[fam] = "pinned"
-        elif match[fam]["true"] == n and match[fam]["false"] < n:
-            variant[fam] = "clamped"
-        elif match[fam]["true"] == n and match[fam]["false"] == n:
-            variant[fam] = "clamped"  # indistinguishable on this sample: the property is then decided by execution below
-            c.notes.append("%s: both loop models agree with the code on this sample" % fam)
-        else:
-            variant[fam] = None
-            best = min(("false", "true"), key=lambda cl: len(mismatch[fam][cl]))
-            mm = mismatch[fam][best][0]
-            c.report("loopmodel:%s:%s" % (fam, ":".join(str(x) for x in mm[:5])),
-                     "time loop of %s follows neither the pinned nor the clamped model: input %s, code -> %s, nearest model (%s) -> %s" % (
-                         mm[0], mm[1:5], mm[-2], "clamped" if best == "true" else "pinned", mm[-1]),
-                     {"family": fam, "scheme": mm[0], "input": mm[1:5], "code": mm[-2], "model": mm[-1], "how": "props/C12/driver.cxx loops"}, True)
-    c.coverage["loop_models"] = {"adaptive": variant.get("adapt"), "fixed_step": variant.get("fixed"),
-                                 "cases": {"adaptive": nadapt, "fixed_step": nfixed}}
-    c.trusted("hand-written Gallina models of the time loops (C12Model.v) -- tied to /repo by differential execution on scripted "
-              "acceptance/rejection sequences (exact on Q vs double, 1e-12)")
+    nadapt = nfixed = 0
+    base_ok = all(f.result().ok for f in fa)
+    if not base_ok:
+        ex.shutdown()
+    else:
+        with ex:
+            fm = ex.submit(model_job)
+            later = []
+            if trace_ok and f_gk.result().ok and f_rk.result().ok:
+                later.append(ex.submit(coq, ["C12Proofs.v", "Properties_C12.v"]))
+                if cv_ok and f_cv.result().ok:
+                    later.append(ex.submit(coq, ["C12CVLink.v", "Properties_C12_cv.v"]))
+            f_gp = ex.submit(coq, ["C12GKProofs.v", "Properties_C12_gkop.v"])
+            mres, gres = fm.result()
+            rc, mout, merr = mres
+            if rc != 0:
+                raise RuntimeError("model evaluation failed: " + merr[-2000:])
+            vals = [v.strip() for v in re.split(r"^\s*=\s", mout, flags=re.M)[1:]]
+            vals = [re.sub(r"\s*:\s*option.*$", "", v, flags=re.S).strip() for v in vals]
 
-    c.log("loop models:", variant)
-    # ---------------------------------------------------------------- Coq
-    files = [gen_gk, gen_rk, "C12Spec.v", "C12Model.v", "C12LoopProofs.v", "C12Proofs.v", "Properties_C12.v"]
-    files.append("Properties_C12_fixed_exact.v" if variant.get("fixed") == "clamped" else "Properties_C12_fixed_refuted.v")
-    files.append("Properties_C12_adapt_exact.v" if variant.get("adapt") == "clamped" else "Properties_C12_adapt_refuted.v")
-    res = None
-    if trace_ok:
-        res = c.coq(files, timeout=900)
-    c.log("coq done", None if res is None else [(f[0], f[2]) for f in res.files])
+            def close(a, b, s):
+                return abs(a - b) <= 1e-12 * max(1.0, abs(s), abs(a), abs(b))
+
+            def ints(v):
+                return [int(x) for x in re.findall(r"-?\d+", v)]
+
+            def parse_adapt(v):
+                if v.startswith("None"):
+                    return None
+                n = ints(v)
+                return (float(F(n[0], n[1])), float(F(n[2], n[3])), n[4])
+
+            def parse_fixed(v):
+                if v.startswith("None"):
+                    return None
+                n = ints(v)
+                return float(F(n[0], n[1]))
+            k = 0
+            match = {"adapt": {"false": 0, "true": 0}, "fixed": {"false": 0, "true": 0}}
+            mismatch = {"adapt": {"false": [], "true": []}, "fixed": {"false": [], "true": []}}
+            nadapt = 0
+            for (nm, ti, tf, dt0, script, res) in loops:
+                for cl in ("false", "true"):
+                    mv = parse_adapt(vals[k]); k += 1
+                    ok = (mv is None and res is None) or (mv is not None and res is not None and close(mv[0], res[0], tf) and close(mv[1], res[1], tf) and mv[2] == res[2])
+                    if ok:
+                        match["adapt"][cl] += 1
+                    else:
+                        mismatch["adapt"][cl].append((nm, ti, tf, dt0, script, res, mv))
+                nadapt += 1
+                c.count(1, ("loop", nm, ti, tf, dt0, script), len(script) > 0)
+            nfixed = 0
+            for (nm, b, e, h, r) in fixed:
+                for cl in ("false", "true"):
+                    mv = parse_fixed(vals[k]); k += 1
+                    if mv is not None and close(mv, r, e):
+                        match["fixed"][cl] += 1
+                    else:
+                        mismatch["fixed"][cl].append((nm, b, e, h, r, mv))
+                nfixed += 1
+                c.count(1, ("fixed", nm, b, e, h), True)
+            variant = {}
+            for fam, n in (("adapt", nadapt), ("fixed", nfixed)):
+                # discriminating cases exist in every run (both models differ on them)
+                if match[fam]["false"] == n and match[fam]["true"] < n:
+                    variant[fam] = "pinned"
+                elif match[fam]["true"] == n and match[fam]["false"] < n:
+                    variant[fam] = "clamped"
+                elif match[fam]["true"] == n and match[fam]["false"] == n:
+                    variant[fam] = "clamped"  # indistinguishable on this sample: the property is then decided by execution below
+                    c.notes.append("%s: both loop models agree with the code on this sample" % fam)
+                else:
+                    variant[fam] = None
+                    best = min(("false", "true"), key=lambda cl: len(mismatch[fam][cl]))
+                    mm = mismatch[fam][best][0]
+                    c.report("loopmodel:%s:%s" % (fam, ":".join(str(x) for x in mm[:5])),
+                             "time loop of %s follows neither the pinned nor the clamped model: input %s, code -> %s, nearest model (%s) -> %s" % (
+                                 mm[0], mm[1:5], mm[-2], "clamped" if best == "true" else "pinned", mm[-1]),
+                             {"family": fam, "scheme": mm[0], "input": mm[1:5], "code": mm[-2], "model": mm[-1], "how": "props/C12/driver.cxx loops"}, True)
+            c.coverage["loop_models"] = {"adaptive": variant.get("adapt"), "fixed_step": variant.get("fixed"),
+                                         "cases": {"adaptive": nadapt, "fixed_step": nfixed}}
+            c.trusted("hand-written Gallina models of the time loops (C12Model.v) -- tied to /repo by differential execution on scripted "
+                      "acceptance/rejection sequences (exact on Q vs double, 1e-12)")
+
+            c.log("loop models:", variant)
+            loopfiles = ["C12LoopProofs.v",
+                         "Properties_C12_fixed_exact.v" if variant.get("fixed") == "clamped" else "Properties_C12_fixed_refuted.v",
+                         "Properties_C12_adapt_exact.v" if variant.get("adapt") == "clamped" else "Properties_C12_adapt_refuted.v"]
+            later.append(ex.submit(coq, loopfiles))
+            for f in later + [f_gp]:
+                f.result()
+    c.coverage["checker_cmd"] = ("coqc -Q coq/lib VLib -R <scratch> C12 <files> (Coq 8.16.1, full .vo compilation), files: " +
+                                 " ".join(os.path.basename(f) for (fs, r) in results for f in fs))
+    failed_res = [r for (fs, r) in results if not r.ok]
+    c.log("coq done", [(f[0], f[1], f[2]) for (fs, r) in results for f in r.files])
     # ---------------------------------------------------------------- the real code against the property itself
     ngk = c.pick(160, 1500)
     rc, out, err = c.run([drv, "gk", str(c.seed), str(ngk)])
@@ -254,6 +336,35 @@ def main(c):
                 c.report("gk:tol:%d:%.17g:%.17g" % (fid, a, b),
                          "gauss_kronrod_integrate(f%d, %.17g, %.17g, tol=%g, 14 refinements) = %r, exact %.17g" % (fid, a, b, tol, got, exact),
                          {"integrand_id": fid, "a": a, "b": b, "got": got, "exact": exact, "how": "props/C12/driver.cxx gk"}, True)
+        elif t[0] == "GKCV":
+            # 3-argument overload on an unbounded range = post-factor x (rule of the traced tables on [-1,1]) of the
+            # documented transformed integrand (theorems C12_cv_*_is_the_rule...), with f = 1/(1+x^2)
+            kind, av = t[1], fl(t[2])
+            c.count(1, ("cv", kind, av), True)
+            if t[4] == "none" or len(tables.get("K", [])) != 15 or len(tables.get("G", [])) != 7:
+                if t[4] == "none":
+                    c.report("gk:cv:%s:%g" % (kind, av), "3-argument gauss_kronrod_integrate returns no value on an unbounded range (%s, finite bound %g)" % (kind, av), {"line": l}, True)
+                continue
+            val, est = fl(t[4]), fl(t[5])
+            f5 = lambda x: 1 / (1 + x * x)
+            base = kind.replace("swap", "")
+            if base == "right":
+                u = lambda tt: f5(av + (2 / (tt + 1) - 1)) / (tt + 1) ** 2
+            elif base == "left":
+                u = lambda tt: f5(av - (2 / (tt + 1) - 1)) / (tt + 1) ** 2
+            else:
+                u = lambda tt: f5(tt / (1 - tt * tt)) * (1 + tt * tt) / (1 - tt * tt) ** 2
+            k15 = 2 * sum(w * u(-1 + 2 * d) for (d, w) in tables["K"])
+            g7 = 2 * sum(w * u(-1 + 2 * d) for (d, w) in tables["G"])
+            post = 1 if base == "line" else 2
+            want = post * k15 * (-1 if kind.endswith("swap") else 1)
+            if not (abs(val - want) <= 1e-12 * max(1.0, abs(want)) and abs(est - abs(k15 - g7)) <= 1e-12):
+                c.report("gk:cv:%s:%g" % (kind, av),
+                         "3-argument gauss_kronrod_integrate(1/(1+x^2)) on the unbounded range '%s' with finite bound %g returns (%.17g, %.3g); "
+                         "%d x the rule of the traced tables applied to the documented change of variable gives (%.17g, %.3g)" % (
+                             kind, av, val, est, post, want, abs(k15 - g7)),
+                         {"kind": kind, "finite_bound": av, "value": val, "estimate": est, "expected_value": want, "expected_estimate": abs(k15 - g7),
+                          "how": "props/C12/driver.cxx gk"}, True)
     if worst:
         # a broken rule: report the lowest-degree monomial it gets wrong and the worst one
         low = min(worst.values(), key=lambda w: (w[1], -w[0]))
@@ -313,20 +424,78 @@ def main(c):
                          {"scheme": nm, "ti": ti, "tf": tf, "h": h, "eps": eps, "time_reached": tend, "how": "props/C12/driver.cxx rk"}, True)
     if short["fixed"] or short["adapt"]:
         c.notes.append("runs that stop away from the final time under the pinned loops (same defect as the listed findings): %s" % short)
+    # ---------------------------------------------------------------- 4-argument operator(): property on the real outputs, then model vs code
+    ngk4 = 0
+    if gobs is not None:
+        nsome = sum(1 for o in gobs.values() if o[0])
+        nnan = sum(1 for o in gobs.values() if o[0] and o[1] != o[1])
+        for cs in gcases:
+            o = gobs[cs.id]
+            c.count(1, ("gkop", cs.id), o[2] > 15)
+            for (key, what) in gkop.spec_check(cs, o, gobs):
+                c.report(key, "4-argument gauss_kronrod_integrate: " + what, cs.json(), True)
+        c.coverage["gkop"] = {"cases": len(gcases), "returned_a_value": nsome, "returned_NaN_as_value": nnan,
+                              "rule_evaluations": sum(o[2] for o in gobs.values()) // 15}
+        if gres is not None:
+            rc, gmout, gmerr = gres
+            mvals = gkop.parse_coq(gmout) if rc == 0 else []
+            if rc != 0 or len(mvals) != len(gcases):
+                c.report("gkop:model-run", "evaluation of the binary64 model failed (rc=%d, %d results for %d cases): %s" % (rc, len(mvals), len(gcases), gmerr[-500:]),
+                         {"stderr": gmerr[-2000:]}, False)
+            else:
+                hard, soft = [], []
+                for cs, m in zip(gcases, mvals):
+                    o = gobs[cs.id]
+                    ngk4 += 1
+                    if m is not None and m[0] == o[0] and (not o[0] or gkop.bits(m[1]) == gkop.bits(o[1])) and m[2] * 15 == o[2]:
+                        if ngk4 % 97 == 5:
+                            c.sample({"gkop_case": cs.id, "a": repr(cs.a), "b": repr(cs.b), "tolerance": repr(cs.tol), "max_refinements": cs.m,
+                                      "result": None if not o[0] else gkop.hx(o[1]), "rule_evaluations": o[2] // 15})
+                        continue
+                    near = (m is not None and m[0] == o[0] and m[2] * 15 == o[2] and o[0] and m[1] == m[1] and o[1] == o[1] and
+                            abs(m[1] - o[1]) <= 1e-13 * max(abs(m[1]), abs(o[1]), 1e-300))
+                    (soft if near else hard).append((cs, m, o))
+                if hard:
+                    # the most telling input first: a different value, then a different verdict, then a different number of evaluations
+                    hard.sort(key=lambda h: 3 if h[1] is None else (0 if (h[1][0] and h[2][0]) and gkop.bits(h[1][1]) != gkop.bits(h[2][1]) else (1 if h[1][0] != h[2][0] else 2)))
+                    cs, m, o = hard[0]
+                    c.report("gkop:model:" + cs.id,
+                             "4-argument gauss_kronrod_integrate deviates from the proved model on %d/%d inputs; first: a = %r, b = %r, tolerance %r, "
+                             "maximum_number_of_refinements %d, integrand %s: the code returns %s after %d rule evaluations, the model (theorems "
+                             "C12_gkop_*: leaf accepted iff NOT estimate > tolerance/2^depth, value = sum of the leaves, 2 x for half-unbounded ranges) "
+                             "returns %s after %s" % (len(hard), len(gcases), cs.a, cs.b, cs.tol, cs.m, cs.json()["integrand"] + " p=%s q=%s" % (cs.p, cs.q),
+                                                      "no value" if not o[0] else "%r (%s)" % (o[1], gkop.hx(o[1])), o[2] // 15,
+                                                      None if m is None else ("no value" if not m[0] else "%r (%s)" % (m[1], gkop.hx(m[1]))), None if m is None else m[2]),
+                             cs.json(), True)
+                elif soft:
+                    c.notes.append("4-argument operator(): %d/%d outputs agree with the binary64 model to 1e-13 but not bit for bit (same verdict, same "
+                                   "number of rule evaluations): the operation order of the rule differs from the model's" % (len(soft), len(gcases)))
+    c.trusted("hand-written Gallina model of the 4-argument GaussKronrodQuadrature::operator() (coq/C12GKModel.v) and its binary64 instance "
+              "(coq/C12GKFloat.v: operation order of the 15-point rule, std::midpoint of libstdc++ 12, the three changes of variable, Horner) -- tied to "
+              "/repo by bit-for-bit comparison of verdict, value and number of rule evaluations on every case of the run",
+              "g++ -O1 -ffp-contract=off doubles = IEEE binary64 = Coq primitive floats; every NaN is one value; -0.0 and +0.0 are distinguished",
+              "props/C12/gkop.py (cases, parsers, independent Python statement of the property on the real outputs)")
     c.coverage["rule"] = ("GK: every degree 0..22 twice + seeded polynomials (random coefficients in [-2,2], intervals in [-3,3], dyadic, degenerate, scaled x40), "
                           "each with exchanged bounds; monomials on [0,1], [-1,1]; NaN bounds; 4 analytic integrands with tolerance 1e-10 and 3 on unbounded ranges "
-                          "(inf and DBL_MAX). RK: y' = p(t), deg p < order, seeded; fixed step with h dividing / not dividing the range; adaptive with eps 1..1e-8; "
-                          "canonical final-time cases y' = 1 on [0,1]. Loops: scripted accept/reject sequences on dyadic ranges vs both Gallina models.")
-    c.coverage["traces_validated_against_impl"] = nadapt + nfixed
-    if res is not None and not res.ok:
+                          "(inf and DBL_MAX); 3-argument overload on 25 unbounded ranges vs the traced rule of the change of variable. "
+                          "4-argument operator() vs binary64 model: 14x14 grid of special bounds (NaN, +-inf, +-DBL_MAX, its neighbour, +-0, denormals, 1e200), "
+                          "budgets 0..%d x 14 tolerances (0, denormal, 1e-300..1, 1e300, inf, NaN, negative) on 6 fixed integrands, seeded polynomials of degree "
+                          "0..26, rational functions with poles outside / inside the range, integrands returning NaN on a sub-interval, unbounded ranges in both "
+                          "encodings, huge finite ranges (overflow of b-a, slow paths of std::midpoint), each seeded case with exchanged bounds; non-trivial = more "
+                          "than one rule evaluation. "
+                          "RK: y' = p(t), deg p < order, seeded; fixed step with h dividing / not dividing the range; adaptive with eps 1..1e-8; "
+                          "canonical final-time cases y' = 1 on [0,1]. Loops: scripted accept/reject sequences on dyadic ranges vs both Gallina models." % c.pick(8, 12))
+    c.coverage["traces_validated_against_impl"] = nadapt + nfixed + ngk4
+    if failed_res:
         if any(v[3] for v in c.violations):
-            c.notes.append("proof obligations failed: %s; concrete failing inputs reported" % [f[2] or f[3][:80] for f in res.failed])
+            c.notes.append("proof obligations failed: %s; concrete failing inputs reported" % [f[2] or f[3][:80] for r in failed_res for f in r.failed])
         else:
-            c.coq_failures(res, None)
+            for r in failed_res:
+                c.coq_failures(r, None)
     extra = {k: n - 4 for k, n in seen_cat.items() if n > 4}
     if extra:
         c.notes.append("further failing inputs of the same categories not reported individually: %s" % extra)
-    if not trace_ok and not c.violations:
+    if not (trace_ok and cv_ok) and not c.violations:
         c.report("trace", "the tracers could not read a rule off /repo's code: " + "; ".join(c.notes)[-600:], {"notes": c.notes}, False)
 
 
